@@ -34,7 +34,7 @@ var lanes = map[string][]laneCfg{
 	},
 	"C11": {
 		{Name: "stub-race", Race: true, Worker: "stub", QuickRuns: 24000, Chunk: 500, Share: 3},
-		{Name: "stub-norace", Worker: "stub", QuickRuns: 64000, Chunk: 2000, Offset: 1 << 32, Share: 1},
+		{Name: "stub-norace", Worker: "stub", QuickRuns: 256000, Chunk: 4000, Offset: 1 << 32, Share: 1},
 	},
 	"C19": {
 		{Name: "race", Race: true, Worker: "stub", QuickRuns: 32000, Chunk: 500, Share: 1},
